@@ -195,4 +195,18 @@ theorem c06_depth_tests_translated (e : PEnv) : completesEarly S.postEarlyGuards
   cases dc <;> cases html <;> cases da <;> by_cases h1 : (2 : Int) < depth <;> by_cases h2 : depth = 1 <;> by_cases h3 : mh = 0 <;>
     simp [h1, h2, h3] <;> omega
 
+open Zeno.Model.Scope in
+/-- `shouldExtractAssets` and `shouldExtractOutlinks`, translated the same way, are the two guards the model's `postAct` uses: requisites are
+extracted when assets capture is on and the body was kept; outlinks when domains crawl is active or the page has fewer hops than `--max-hops`
+(and the body was kept) - for every hop count and hop limit -/
+theorem c06_extraction_guards_translated (e : PEnv) :
+    S.wantAssetsCond.eval e = (!e.disableAssets && e.body) ∧
+    S.wantOutlinksCond.eval e = ((e.domainsCrawl && e.body) || (S.outlinkHopsOp.eval e.hops e.maxHops && e.body)) := by
+  obtain ⟨dc, depth, html, da, mh, body, hops⟩ := e
+  have hop : S.outlinkHopsOp = .lt := by decide
+  simp only [S, Zeno.Gen.Stages.facts, PCond.eval, PAtom.eval, Cmp.eval, hop]
+  constructor
+  · cases da <;> cases body <;> simp
+  · cases dc <;> cases body <;> by_cases h : hops < mh <;> simp [h]
+
 end Zeno.Props.C06
